@@ -855,6 +855,11 @@ func (a *align) TranslateByReference(phase int, geneticcode int, refseq string) 
 	var code map[string]uint8       // Genetic code
 	var newseqbuffer []bytes.Buffer // The buffers where the temp translated sequences are written
 
+	// A negative phase (-1: translation in the 3 phases) has no meaning along a reference sequence
+	if phase < 0 {
+		err = fmt.Errorf("cannot translate in the 3 phases (phase %d) using a reference sequence: phase must be >= 0", phase)
+		return
+	}
 	// We take the reference sequence ID from the alignment
 	if refseq == "" {
 		err = fmt.Errorf("given reference sequence is empty")
